@@ -123,7 +123,7 @@ Fixpoint replay (me bf : Z) (texts : list bytes) (t : mask_tbl) (s : sstate) (st
   | HSearchP p code ids oldest :: r => searchp_ok me bf (st s) p code ids oldest && replay me bf texts t s r
   | HCheckRot ivl now :: r =>
       (* the code as it is: a missing file counts as infinitely old *)
-      replay me bf texts t {| st := check_and_rotate true ivl now (st s); anon := anon s |} r
+      replay me bf texts t {| st := check_and_rotate false ivl now (st s); anon := anon s |} r
   end.
 
 (** *** codec cases *)
@@ -230,7 +230,7 @@ Fixpoint explain_steps (me bf : Z) (texts : list bytes) (t : mask_tbl) (s : ssta
        | Panic => (2, [], 0)
        end, searchp_ok me bf (st s) p code ids oldest) :: explain_steps me bf texts t s r
   | HCheckRot ivl now :: r =>
-      explain_steps me bf texts t {| st := check_and_rotate true ivl now (st s); anon := anon s |} r
+      explain_steps me bf texts t {| st := check_and_rotate false ivl now (st s); anon := anon s |} r
   end.
 
 (** For codec cases: (0, ids unused, 0, flag) rows: encode agrees, decode
